@@ -73,9 +73,14 @@ func (d *DebugDialer) Dial(ctx context.Context, urlstr string) (conn net.Conn, b
 		// We must split response inside buffered bytes from other received
 		// bytes from server.
 		p := resBuf.Bytes()
-		n := bytes.Index(p, headEnd)
-		h := n + len(headEnd)         // Head end index.
-		n = h + int(resContentLength) // Body end index.
+		h := len(p) // Head end index. Whole buffer if the head is incomplete.
+		if n := bytes.Index(p, headEnd); n != -1 {
+			h = n + len(headEnd)
+		}
+		n := h + int(resContentLength) // Body end index.
+		if n > len(p) {
+			n = len(p)
+		}
 
 		onResponse(p[:n])
 
